@@ -53,7 +53,24 @@ func FromMap[K comparable, V any](m Map[K, V], hm map[K]V) Map[K, V] {
 		txn.Insert(m.keyToBytes(key), mapKVPair[K, V]{key, value})
 	}
 	m.tree = txn.Commit()
+	m.normalize()
 	return m
+}
+
+// normalize restores the invariant that the tree representation holds at
+// least two pairs. Bulk insertions can end up with fewer when several of the
+// inserted keys map to the same bytes (the later one wins).
+func (m *Map[K, V]) normalize() {
+	if !m.hasTree || m.tree.size > 1 {
+		return
+	}
+	if m.tree.size == 1 {
+		iter := m.tree.Iterator()
+		_, kv, _ := iter.Next()
+		m.singleton = &kv
+	}
+	m.tree = Tree[mapKVPair[K, V]]{}
+	m.hasTree = false
 }
 
 // ensureTree checks that the tree is not nil and allocates it if
@@ -345,6 +362,7 @@ func (m *Map[K, V]) UnmarshalJSON(data []byte) error {
 		return fmt.Errorf("%T.UnmarshalJSON: expected ']' got %v", m, t)
 	}
 	m.tree = txn.Commit()
+	m.normalize()
 	return nil
 }
 
@@ -384,6 +402,7 @@ func (m *Map[K, V]) UnmarshalYAML(value *yaml.Node) error {
 		txn.Insert(m.keyToBytes(kv.Key), mapKVPair[K, V]{kv.Key, kv.Value})
 	}
 	m.tree = txn.Commit()
+	m.normalize()
 	return nil
 }
 
